@@ -35,7 +35,8 @@ this property, while
 {variant}
 Also write a demonstration: a small Rust test (preferably a `#[cfg(test)]` test added in a NEW file or appended
 test module, or an integration-style test under the crate) or a small program that FAILS with your change and
-PASSES without it, and actually run it both ways to confirm (use `git stash` / `git apply -R` to flip).
+PASSES without it, and actually run it both ways to confirm (flip with `git apply` / `git apply -R`; do NOT use
+`git stash` - the stash is shared with other worktrees of the same repository).
 
 Deliverables - create the directory {wt}/OUT and put there:
   - patch.diff : `git diff` of ONLY the property-breaking source change (no demo code in it), applicable with
